@@ -173,6 +173,22 @@ def step (g : Geo) : List String → Except Exc (Geo × String)
     pure (g, if g.refineUnstable (← cols.mapM (colId g)) b then "1" else "0")
   | "unstable" :: "decompose" :: cols => do
     pure (g, if g.decomposeUnstable (← cols.mapM (colId g)) then "1" else "0")
+  -- numeric resynchronisation (the harness overwrites rounding drift with the doubles of the real object;
+  -- never anything combinatorial)
+  | ["npos", n, x, y] => do
+    let i ← nodeId g n
+    pure (g.updNode i fun nd => { nd with pos := (ratD x, ratD y) }, "")
+  | ["cnum", c, cx, cy, area, surf] => do
+    let i ← colId g c
+    pure (g.updCol i fun cl => { cl with centre := (ratD cx, ratD cy), area := ratD area, surface := parseRat? surf }, "")
+  | ["lnum", n, b, c, t] =>
+    match g.layerD.get? (unhexName n) with
+    | some i => .ok (g.updLay i fun la => { la with bottom := ratD b, centre := ratD c, top := ratD t }, "")
+    | none => .error .keyError
+  | "wpos" :: n :: pos =>
+    match g.wellD.get? (unhexName n) with
+    | some i => .ok ({ g with W := g.W.modify i fun wl => { wl with pos := parseWellPos pos } }, "")
+    | none => .error .keyError
   | ["dump"] => .ok (g, dump g)
   | ["inv"] =>
     let b (x : Bool) := if x then "1" else "0"
